@@ -55,13 +55,13 @@ def main():
             "enable": "go build -tags verif (lib/build.sh builds octosql, octosql-race, vharness, vharness-race, testplugin with the tag on)",
             "baseline_off_cmd": "cd /repo && GOFLAGS=-mod=mod GOPROXY=off GOSUMDB=off GOTOOLCHAIN=local go test -json -vet=off -count=1 -timeout 25m ./...",
             "source_commits": [c.split()[0] for c in commits],
-            "add_only": True,
+            "add_only": False,
         },
         "engines": [{"name": "vharness", "path": "/verif/harness", "serves_properties": [c["property_id"] for c in checks],
                      "kind_free_text": "Go harness linking octosql's packages (in-process node/API monitors) and driving the real CLI binary (one process per query); deterministic oracles over recorded executions; Go race detector builds for the concurrency properties"}],
         "checks": checks,
         "not_applicable": na,
-        "notes": "All checks: ./check <ID> quick|thorough, honour VERIF_SEED. Known findings: known_findings.json.",
+        "notes": "All checks: ./check <ID> quick|thorough, honour VERIF_SEED. Known findings: known_findings.json (read-only at run time). hooks.add_only is false only because of e105158: the four original hook commits (1cffc57, 2e44e19, e214d15, f982e9b) add lines only; e105158 moves two of the hook lines themselves (the torn-write points) onto the temporary files that two fix: commits introduced. No hook commit rewrites or deletes a line of octosql's own code. Seeded-change experiments: seeded/ (tools/seedtest.sh points the same checks at a scratch worktree through VERIF_REPO; registered commands never set it).",
     }
     json.dump(m, open(os.path.join(ROOT, "MANIFEST.json"), "w"), indent=1)
     print("claimed:", len(checks), "not_applicable:", len(na))
